@@ -18,6 +18,11 @@ CLAIMED = {
    text="Structural necessary conditions of fail-closed auth decided at every site: each server.Route built from a declared route carries routeMiddlewares(that route); every ast.Route literal keeps .Auth; both dispatchers fold all Middlewares (index range evaluated) before calling the handler; authMiddleware returns nil only for undeclared auth, enables bearer/apikey checking only with a non-empty configured secret/key set and otherwise denyAll; in every credential closure next is unreachable once credential-accepted edges are cut; lock-out test dominates the credential read and rejected credentials are counted; tracker state only under its mutex.",
    note="Does not cover JWT semantics, lock-out arithmetic, timing channels. Accept-all placeholders (nil credential set) are reasoned exceptions paired with a call-site rule. Trusted: go/types, go/ssa.",
    ref="DESIGN.md §3 C06"),
+ "C16": dict(
+   technique="static analysis: SSA must-lockset over the hub/room/connection guard table, ordering (close-after-unlink) and guard-edge path queries, who-may-send enumeration on Connection.send, limit-test boundary evaluation, config def-use",
+   text="Structural necessary conditions of hub/room consistency decided at every site: each guarded field only under its mutex; every close(conn.send) only after the connection left Hub.connections and all rooms; every send on conn.send is in the hub loop or under Room.mu; a connection records membership only on the room's err==nil edge and forgets a room only with the room-side remove; inserts into Hub.connections/Room.connections are preceded in the same critical section by a len-vs-max test whose len==max outcome cannot reach the insert; NewServer's Config reaches the hub; client-controlled data is never type-asserted unchecked in hub goroutines.",
+   note="Does not cover delivery guarantees, deadlock freedom with blocking channel sends, real interleavings. Known finding: Connection.Send has no closed-state guard (3 send sites). Lockset is receiver-insensitive. Trusted: go/types, go/ssa, the guard table in c16.go.",
+   ref="DESIGN.md §3 C16"),
 }
 
 NA_REASONS = {}
